@@ -37,9 +37,9 @@ def run(run):
     run.outside = ["n > 4", "m > 2 (m = 3 only in other checks)", "element names beyond small ints / one-letter strings"]
     run.rule = "one item per (configuration, dataset shape, flag); every feasible path checked structurally"
     run.bounds["kernel moves [S] (n, element)"] = kn
-    run.add_candidates(harness.pmap(bk.move_check, kn))
+    run.pmap("bk.move_check", bk.move_check, kn)
     items = sweep.make_items(run, cfgs, [chk_no_crash, "wellformed"], light=light, heavy=heavy)
-    run.add_candidates(harness.pmap(sweep.run_item, items, chunksize=2))
+    run.pmap("sweep.run_item", sweep.run_item, items, chunksize=2)
     run.extra["work_items"] = len(items)
     run.extra["stubs"] = sweep.install()
 
